@@ -20,7 +20,7 @@ TEXT = {
  "C12": "Lean theorems: each of the eight PointerIndex loops returns exactly the span of the token range the range table denotes (for every bound value, unbounded Nat: no overflow, Excluded(usize::MAX) ⇒ None), spans are the sub-list's text, split_at succeeds iff byte k is '/', pieces re-concatenate, no panic. Correspondence: Option + (offset,len) from address arithmetic.",
  "C13": "Lean theorems: starts_with/strip_prefix/ends_with/strip_suffix ⇔ list prefix/suffix on token lists (with the documented root exception), intersection = longest common prefix (symmetric, idempotent, root), concat = append (associative, root neutral), '/foo' is not a prefix of '/foobar'. Correspondence on adversarial pairs/triples.",
  "C14": "Lean theorems: NoLeadingSlash iff non-empty and not starting with '/', otherwise complete/pointer/source offsets are the first bad '~', the nearest '/' at or before it and their difference; the report keeps error and input; the label lies inside the string and starts at the '~'. Correspondence: offsets, report parts, label (exhaustive rejected strings ≤ 6/7).",
- "C15": "the four `resolve`/`resolve_mut` walks (json and toml), `Assign::assign` → `assign_value` → `assign_array` / `assign_object` / `assign_scalar` → `expand` (all of src/assign.rs's walk, both backends; `&mut` references as document locations) with its position/offset bookkeeping, `parse_index`, `Index::from_str`, `Index::for_len`",
+ "C15": "the four `resolve`/`resolve_mut` walks (json and toml), `Assign::assign` → `assign_value` → `assign_array` / `assign_object` / `assign_scalar` → `expand` (all of src/assign.rs's walk, both backends; `&mut` references as document locations) with its position/offset bookkeeping, the errors' `position()` / `offset()` accessors and `Diagnostic::labels` (resolve::Error and assign::Error; the label's text is not modelled), `parse_index`, `Index::from_str`, `Index::for_len`",
  "C16": "Lean theorems: Index::from_str = the declarative index grammar incl. error classification, Display round trips both ways, truthful errors, exact for_len/for_len_incl/for_len_unchecked. Correspondence: exhaustive small alphabet ≤ 5 + numbers around 2^64 + bound grid.",
  "C17": "Lean theorems (shallow by nature): each modelled PartialEq/PartialOrd impl = text equality / lexCmp; lexCmp is a total order consistent with ==; equal hash inputs. The deciding part is the per-impl differential on ordered pairs (20 eq + 20 ord forms), plus hash/map laws on the real crate.",
  "C18": "Lean theorems: serialize = text, deserialize∘serialize = ok, invalid refused, conversions are the identity on the text, Token::from(int) is canonical decimal. Correspondence: serde round trips, every conversion incl. Box with several capacities, 12 integer types.",
